@@ -112,6 +112,13 @@ func genC13(cfg Config, ws *WorldSet, i, nctx int) C13Case {
 			x.Dims["env-noise"] = "yes"
 		}
 		if r.Chance(1, 3) {
+			// what `go generate` exports besides GOFILE: the package of the file holding
+			// the directive (which need not be the setup file's), its line, the dollar sign
+			gp := sim.Pick(r, []string{pkgNameOf(world.Files[world.Setup]), "main", "tools", "otherpkg"})
+			x.Env = append(x.Env, "GOPACKAGE="+gp, fmt.Sprintf("GOLINE=%d", r.Range(1, 400)), "DOLLAR=$", "GOARCH=amd64", "GOOS=linux")
+			x.Dims["go-generate-env"] = "GOPACKAGE=" + gp
+		}
+		if r.Chance(1, 3) {
 			x.Env = append(x.Env, "TMPDIR={W}/tmp/alt")
 			x.Dims["TMPDIR"] = "alt"
 		}
@@ -370,7 +377,7 @@ func shrinkC13(c C13Case) []C13Case {
 	if fmt.Sprint(b.Env) != fmt.Sprint(a.Env) {
 		try(func(x *C13Ctx) {
 			x.Env = a.Env
-			for _, k := range []string{"TZ", "LANG", "env-noise", "TMPDIR"} {
+			for _, k := range []string{"TZ", "LANG", "env-noise", "TMPDIR", "go-generate-env"} {
 				if v, ok := a.Dims[k]; ok {
 					x.Dims[k] = v
 				} else {
@@ -469,7 +476,7 @@ func runC13(cfg Config, args []string) int {
 		Exec:   func(c C13Case) CaseResult { return execC13(env, c) },
 		Shrink: shrinkC13,
 		Rule: fmt.Sprintf("one case = one world (fixture or synthetic, biased to several imports/interfaces, accepted and rejected) run %d times in fresh processes with the same flags while the seed varies marker bytes, simulated clock instant and step, pid, hostname, "+
-			"cwd and spelling of the input path, GOFILE vs argument, GOMAXPROCS, per-file stat delays (steering the concurrent ParseFile callbacks), TZ/LANG/TMPDIR/env noise, source mtimes and whether the previous output is still in place (unchanged, or with one byte altered at the same length); "+
+			"cwd and spelling of the input path, GOFILE vs argument, GOMAXPROCS, per-file stat delays (steering the concurrent ParseFile callbacks), TZ/LANG/TMPDIR/env noise, the variables go generate exports (GOPACKAGE of another package, GOLINE, DOLLAR), source mtimes and whether the previous output is still in place (unchanged, or with one byte altered at the same length); "+
 			"a quarter of the runs use the unmodified binary. All runs of a group must agree on exit status, output bytes, stdout and (path-spelling-normalised) diagnostics. distinct_nontrivial counts distinct (world, input form, binary, GOMAXPROCS, touched, prior output) tuples.", nctx),
 		Assume: []string{"the module is never moved: all runs of a group happen in the same directory", "marker collisions with the source text are never generated",
 			"Go map iteration order and goroutine interleaving inside the real process are steered (GOMAXPROCS, stat delays) and sampled by repetition, not dictated; no oracle depends on them"},
